@@ -700,12 +700,7 @@ class _SetOperation(Selectable, Term):  # type:ignore[misc]
 
     @classmethod
     def _operand_sql(cls, operand: Any, set_ctx: SqlContext) -> str:
-        # An operand that is itself a set operation is one unit: a.except_of(b.except_of(c)) means a EXCEPT (b EXCEPT c)
-        if (
-            isinstance(operand, _SetOperation)
-            and not set_ctx.subquery
-            and set_ctx.dialect == Dialects.SQLITE
-        ):
+        if cls._is_unit(operand) and not set_ctx.subquery and set_ctx.dialect == Dialects.SQLITE:
             # SQLite's grammar has no bracketed operands: the unit is written as a FROM-subquery
             return "SELECT * FROM {operand}".format(
                 operand=operand.get_sql(set_ctx.copy(subquery=True))
@@ -713,18 +708,22 @@ class _SetOperation(Selectable, Term):  # type:ignore[misc]
         return operand.get_sql(cls._operand_ctx(operand, set_ctx))
 
     @staticmethod
-    def _operand_ctx(operand: Any, set_ctx: SqlContext) -> SqlContext:
-        # An operand with ORDER BY / LIMIT / OFFSET of its own must be bracketed, or those clauses would end the
-        # operand in the middle of the statement. SQLite's grammar has no bracketed operands at all.
-        if set_ctx.subquery or set_ctx.dialect == Dialects.SQLITE:
-            return set_ctx
-        has_tail = (
+    def _is_unit(operand: Any) -> bool:
+        # An operand that is itself a set operation is one unit: a.except_of(b.except_of(c)) means a EXCEPT (b EXCEPT c).
+        # So is an operand with ORDER BY / LIMIT / OFFSET of its own: unbracketed, those clauses would end the operand
+        # in the middle of the statement.
+        return bool(
             isinstance(operand, _SetOperation)
             or getattr(operand, "_orderbys", None)
             or getattr(operand, "_limit", None) is not None
             or getattr(operand, "_offset", None) is not None
         )
-        return set_ctx.copy(subquery=True) if has_tail else set_ctx
+
+    @classmethod
+    def _operand_ctx(cls, operand: Any, set_ctx: SqlContext) -> SqlContext:
+        if set_ctx.subquery:
+            return set_ctx
+        return set_ctx.copy(subquery=True) if cls._is_unit(operand) else set_ctx
 
     def _orderby_sql(self, ctx: SqlContext) -> str:
         """
